@@ -36,6 +36,9 @@ pub enum Step {
     Finish(usize),
     DropHandles,
     Table,
+    /// a single-result operation issued through the handle INSIDE the stream of search `i`
+    /// (`stream.ldap_handle()`); it gets the next operation index
+    Via(usize),
     /// move the ID counter so that the next allocation tries `next_id` first; the in-use set is the
     /// library's own (emulates the wrap of the ID space; not a model event: R-oracle scenarios only)
     Rewind(i32),
@@ -99,6 +102,7 @@ pub fn frame_bytes(id: i64, op: u64, good: bool, tok: u64) -> Vec<u8> {
 enum Cmd {
     Next,
     Finish,
+    Via,
 }
 
 pub struct Outcome {
@@ -220,6 +224,20 @@ pub fn run_script(steps: &[Step]) -> Outcome {
                                                         verif_trace(format!("cli next {} {} {}", i, match dl { Some(d) => d.to_string(), None => String::from("none") }, txt));
                                                     }
                                                 }
+                                                Cmd::Via => {
+                                                    let j = issued.get();
+                                                    issued.set(j + 1);
+                                                    verif_trace(format!("cli issue {} single none", j));
+                                                    let r = stream.ldap_handle().delete("cn=via").await;
+                                                    let txt = match r {
+                                                        Ok(res) => match tok_of_text(&res.text) {
+                                                            Some(t) => format!("frame:{}", t),
+                                                            None => String::from("ack"),
+                                                        },
+                                                        Err(e) => err_text(&e),
+                                                    };
+                                                    verif_trace(format!("cli done {} {}", j, txt));
+                                                }
                                                 Cmd::Finish => {
                                                     let closed = stream.state() == ldap3::StreamState::Closed;
                                                     let was_done = stream.state() == ldap3::StreamState::Done;
@@ -307,6 +325,13 @@ pub fn run_script(steps: &[Step]) -> Outcome {
                                 if main_handle.take().is_some() {
                                     verif_trace(String::from("drophandles"));
                                 }
+                            }
+                        }
+                        Step::Via(i) => {
+                            if let Some(Some(tx)) = cmd_tx.get(i) {
+                                let _ = tx.send(Cmd::Via);
+                                cmd_tx.push(None); // the new operation has an index but takes no commands
+                                tokio::task::yield_now().await;
                             }
                         }
                         Step::Table => {
